@@ -295,7 +295,10 @@ def vals_of(pl):
                       num_steps=pl.num_steps).values
         except Exception:
             v = np.zeros((0, 0))
-    return np.asarray(v, dtype=float).tolist()
+    try:
+        return np.asarray(v, dtype=float).tolist()
+    except (TypeError, ValueError):
+        return np.asarray(v).tolist()          # a non-numeric placeholder array (the pre-357d745 code): kept as it is
 
 
 def grid_of(pl):
